@@ -40,7 +40,17 @@ MISSED = {
     "C12-f": "every generated type had a code below 256: a private-use type (65280) joined the universe",
     "C14-e": "no case wrote more than a few dozen rows at once: 1 initial dump in 31 now has more than 1000 records",
     "C14-f": "every owner name of the initial zone lay inside the zone: a quarter of the initial zones now hold out-of-zone glue, as the zone-file loader accepts",
+    "C06-f": "every generated key-signing key had flags 257: 15 % of the chains now carry the REVOKE bit on the key-signing key consistently (DNSKEY RRset, key tag, DS, signatures), which RFC 5011 2.1 forbids as a trust path",
+    "C09-e": "owner and query names reached the validator in one letter case only: each verdict is recomputed with the case of the SOA owner and of the query name flipped and must not change (also added to C08)",
+    "C11-e": "an OPT or TSIG record was only ever placed in the additional section: requests with one in the answer or authority section are generated and counted as malformed bodies (FORMERR)",
+    "C13-f": "the client side was exercised through the stream multiplexer only: new sub-property `client_udp_replies` sends signed requests through the real `UdpClientStream::with_signer` on the simulated runtime against sequences of 1-3 reply datagrams (genuine or edited)",
+    "C05-e": "no generated type had an embedded name that stays unfolded apart from the singleton NSEC: SVCB/HTTPS RRsets joined the generator, and injected case variants of NSEC/SVCB/HTTPS members are distinct RRs that must all be signed",
     "C19-e": "aliases came as chains and loops only: 1 simulated internet in 13 now has an alias tree (2-3 CNAME records per owner, 4-5 levels) and the number of its names looked up per client query is held against the recursor's cap of 64",
+}
+
+# seeds that stopped violating their property because of a later `fix:` commit in /repo
+NEUTRALISED = {
+    "C08-f": "missed by C08 when it arrived (no sampled positive answer had a CNAME target with fewer labels than the alias). Looking into it exposed the validator defect behind it: any positive answer that carries superfluous denial records was rejected (fixed in e539ca2, found independently by C09 `positive_e2e`). With that fix the validator accepts the changed server's response, so the change no longer violates C08; the server-side behaviour it introduces (NSEC attached to a plain positive answer) is reported by C10 as `positive-answer-carries-nsec`, an assertion added for this seed (seeded/C08-f/mutcheck-C10.log)",
 }
 
 
@@ -96,6 +106,10 @@ for d in sorted(glob.glob(ROOT + "/*/")):
     caught = ("`%s`" % sig) if detected and sig else ("detected" if detected else "**NOT DETECTED**")
     if name in MISSED:
         caught = "**missed at first** → " + MISSED[name] + " → " + caught
+    if name in NEUTRALISED:
+        meta["no_longer_a_violation_at_final_head"] = NEUTRALISED[name]
+        json.dump(meta, open(mp, "w"), indent=1)
+        caught = "no longer a violation at the final HEAD: " + NEUTRALISED[name]
     rows.append("| %s %s | %s | %s |" % (name, short.replace("|", "\\|"), needs.replace("|", "\\|"), caught.replace("|", "\\|")))
 
 names = [os.path.basename(d[:-1]) for d in sorted(glob.glob(ROOT + "/*/")) if os.path.exists(d + "meta.json")]
